@@ -126,28 +126,36 @@ def run(ctx: Context, col) -> None:
     if ok3:
         tests = [n for n in g.stmts() if n.kind == "test" and any(isinstance(s_, ast.Raise) or any(isinstance(y, ast.Raise) for y in ast.walk(s_)) for s_ in n.ast.body)]
         dom_ok = bool(tests) and all(g.dominates(tests[0], n) for n in norm_nodes + rets) and bool(rets)
+        # the pair located by unravel_index(argmax|row sums - 1|, row_sums.shape): (action, state) = (axis 0, axis 1) of [A, S]
+        pair = None
+        for n in g.stmts():
+            if isinstance(n.ast, ast.Assign) and isinstance(n.ast.targets[0], ast.Tuple) and isinstance(n.ast.value, ast.Call) \
+                    and ast.unparse(n.ast.value.func).endswith("unravel_index") and len(n.ast.targets[0].elts) == 2:
+                pair = [ast.unparse(x) for x in n.ast.targets[0].elts]
         msg_ok = False
         for r_ in raises:
-            if r_.ast.exc is not None:
-                names = {x.id for x in ast.walk(r_.ast.exc) if isinstance(x, ast.Name)}
-                fvals = [x for x in ast.walk(r_.ast.exc) if isinstance(x, ast.FormattedValue)]
-                shown = {ast.unparse(x.value) for x in fvals}
-                msg_ok = msg_ok or ({"state", "action"} <= shown)
+            if r_.ast.exc is not None and pair is not None:
+                js = [x for x in ast.walk(r_.ast.exc) if isinstance(x, ast.JoinedStr)]
+                text = ""
+                for j in js:
+                    for v in j.values:
+                        text += v.value if isinstance(v, ast.Constant) else "{" + ast.unparse(v.value) + "}"
+                a_name, s_name = pair
+                msg_ok = msg_ok or (f"state {{{s_name}}}" in text and f"action {{{a_name}}}" in text)
         if not dom_ok:
             ok3, why3 = False, "the row-sum check does not dominate the normalisation / return"
         elif not msg_ok:
-            ok3, why3 = False, "the error message does not interpolate both the state and the action of the offending pair"
+            ok3, why3 = False, "the error message does not name the offending pair as `state {<axis-1 index>}` and `action {<axis-0 index>}`"
         else:
             # state/action must come from unravel_index(argmax |row sums - 1|, row_sums.shape) in (action, state) order
             okidx = False
             for n in g.stmts():
                 if isinstance(n.ast, ast.Assign) and isinstance(n.ast.targets[0], ast.Tuple) and isinstance(n.ast.value, ast.Call) \
                         and ast.unparse(n.ast.value.func).endswith("unravel_index"):
-                    tg = [ast.unparse(x) for x in n.ast.targets[0].elts]
-                    shape_arg = ast.unparse(n.ast.value.args[1]) if len(n.ast.value.args) > 1 else ""
-                    okidx = tg == ["action", "state"] and shape_arg == "row_sums.shape" and "argmax" in ast.unparse(n.ast.value.args[0])
+                    shape_arg = n.ast.value.args[1] if len(n.ast.value.args) > 1 else None
+                    okidx = isinstance(shape_arg, ast.Attribute) and shape_arg.attr == "shape" and "argmax" in ast.unparse(n.ast.value.args[0])
             if not okidx:
-                ok3, why3 = False, "state / action in the message are not unravel_index(argmax|row_sums - 1|, row_sums.shape) in (action, state) order"
+                ok3, why3 = False, "the offending pair is not located by unravel_index(argmax|row sums - 1|, <row sums>.shape)"
     col.add("R17.3", construct, file, (raises[0].lineno if raises else fn.lineno), ok3, why3, text="row-sum error")
 
     # ---- R17.4
